@@ -25,7 +25,13 @@ def _r(x):
 
 def exp(x): return wrap(EXP(_r(x)))
 def log(x): return wrap(LOG(_r(x)))
-def sqrt(x): return wrap(SQRT(_r(x)))
+def sqrt(x):
+    """sqrt as an uninterpreted function; its defining instance (sqrt(a) >= 0, sqrt(a)^2 == a for a >= 0) is
+    assumed for every term created while a path is explored (trusted law instance)"""
+    a = _r(x)
+    if sym.active():
+        sym.cur().assume(z3.Implies(a >= 0, z3.And(SQRT(a) >= 0, SQRT(a) * SQRT(a) == a)))
+    return wrap(SQRT(a))
 
 
 def tanh(x):
